@@ -328,12 +328,57 @@ theorem readNumber_int (t X : List Nat) (i : Int) (ht : IsIntTok t i) (hX : Term
     rw [hm]
     simp [parseI32, splitSign, hd, hv, isEmpty_false_of_ne d hne]
 
+/-- an integer-looking token of any magnitude: digits, or `-` digits -/
+def IsPlainInt (t : List Nat) : Prop :=
+  (t ≠ [] ∧ allDigits t = true) ∨ (∃ d, t = 45 :: d ∧ d ≠ [] ∧ allDigits d = true)
+
+/-- what `read_number` returns for it: an `i32` when it fits, otherwise a real -/
+def tokOfPlain (t : List Nat) : Token :=
+  match parseI32 t with
+  | some i => .integer i
+  | none => .number t
+
+theorem countDigits_pos' (ds : List Nat) (h : allDigits ds = true) (hne : ds ≠ []) :
+    countDigits ds > 0 := by
+  have := countDigits_pos ds [] h hne
+  simpa using this
+
+theorem readNumber_plain (t X : List Nat) (ht : IsPlainInt t) (hX : TermOk X) :
+    readNumber (t ++ X) = .tok (tokOfPlain t) X := by
+  rcases ht with ⟨hne, hd⟩ | ⟨d, rfl, hne, hd⟩
+  · obtain ⟨b, r, hbr, hb⟩ := digits_head t hd hne
+    have hb' : b ≠ 43 ∧ b ≠ 45 := by simp [isDigit] at hb; omega
+    have hm : takeMantissa false (t ++ X) = (t, false, X) := by
+      rw [takeMantissa_digits false t X hd, takeMantissa_stop false X hX]; simp
+    have hsg : (b == 43 || b == 45) = false := by simp [hb'.1, hb'.2]
+    have hc := countDigits_pos' t hd hne
+    unfold readNumber tokOfPlain
+    subst hbr
+    simp only [List.cons_append, hsg, Bool.false_eq_true, if_false]
+    have hm' := hm
+    simp only [List.cons_append] at hm'
+    rw [hm']
+    simp only [List.nil_append]
+    cases hp : parseI32 (b :: r) <;> simp [hp, hc]
+  · have hm : takeMantissa false (d ++ X) = (d, false, X) := by
+      rw [takeMantissa_digits false d X hd, takeMantissa_stop false X hX]; simp
+    have hc := countDigits_pos' d hd hne
+    unfold readNumber tokOfPlain
+    simp only [List.cons_append, beq_self_eq_true, Bool.or_true, if_true]
+    rw [hm]
+    simp only [List.singleton_append]
+    cases hp : parseI32 (45 :: d) <;> simp [hp, hc]
+
 /-! ### names -/
 
 /-- bytes that the content tokenizer returns unchanged inside a name -/
 def nameByteOk (b : Nat) : Bool := !isNameBreak b && b != 35
 
-def NameOk (n : List Nat) : Prop := (∀ b ∈ n, nameByteOk b = true) ∧ validUtf8 n = true
+/-- names that survived the RAW emission used before the repair -/
+def RawNameOk (n : List Nat) : Prop := (∀ b ∈ n, nameByteOk b = true) ∧ validUtf8 n = true
+
+/-- every name a Rust `String` can hold: bytes, valid UTF-8 -/
+def NameOk (n : List Nat) : Prop := (∀ b ∈ n, b < 256) ∧ validUtf8 n = true
 
 theorem scanName_ok (n X : List Nat) (h : ∀ b ∈ n, nameByteOk b = true) (hX : TermOk X) :
     scanName 0 (n ++ X) = (n, X) := by
@@ -361,10 +406,61 @@ theorem decodeName_ok (n : List Nat) (h : ∀ b ∈ n, nameByteOk b = true) :
     rw [decodeName]
     simp [hb.2, ih']
 
-theorem readName_ok (n X : List Nat) (h : NameOk n) (hX : TermOk X) :
+theorem readName_raw (n X : List Nat) (h : RawNameOk n) (hX : TermOk X) :
     readName (n ++ X) = .tok (.name n) X := by
   unfold readName
   simp [scanName_ok n X h.1 hX, decodeName_ok n h.1, h.2]
+
+/-! #### escaped names (`escape_pdf_name_bytes`) -/
+
+theorem regular_ok (b : Nat) (h : nameRegular b = true) : isNameBreak b = false ∧ b ≠ 35 := by
+  simp [nameRegular] at h
+  simp [isNameBreak, isWs]
+  omega
+
+theorem hexDigitUpper_ne_plus (k : Nat) (h : k < 16) : hexDigitUpper k ≠ 43 := by
+  unfold hexDigitUpper
+  split <;> omega
+
+theorem hexVal_hexDigitUpper : ∀ k, k < 16 → hexVal (hexDigitUpper k) = some k := by decide
+
+theorem scanName_esc (n X : List Nat) (hX : TermOk X) :
+    scanName 0 (escapeName n ++ X) = (escapeName n, X) := by
+  induction n with
+  | nil =>
+    rcases hX with rfl | ⟨b, r, rfl, hb⟩
+    · simp [escapeName, scanName]
+    · simp [escapeName, scanName, hb]
+  | cons x xs ih =>
+    by_cases hp : nameRegular x = true
+    · have := regular_ok x hp
+      simp [escapeName, hp, scanName, this.1, this.2, ih]
+    · simp only [Bool.not_eq_true] at hp
+      have h35 : isNameBreak 35 = false := by decide
+      simp [escapeName, hp, scanName, h35, ih]
+
+theorem decodeName_esc (n : List Nat) (hb : ∀ b ∈ n, b < 256) :
+    decodeName .plain (escapeName n) = some n := by
+  induction n with
+  | nil => simp [escapeName, decodeName]
+  | cons x xs ih =>
+    have hx : x < 256 := hb x (by simp)
+    have ih' := ih (fun b hb' => hb b (by simp [hb']))
+    by_cases hp : nameRegular x = true
+    · have := regular_ok x hp
+      simp [escapeName, hp, decodeName, this.2, ih']
+    · simp only [Bool.not_eq_true] at hp
+      have h1 := hexVal_hexDigitUpper (x / 16 % 16) (by omega)
+      have h2 := hexVal_hexDigitUpper (x % 16) (by omega)
+      have hn := hexDigitUpper_ne_plus (x / 16 % 16) (by omega)
+      simp [escapeName, hp, decodeName, hexPair, hn, h1, h2, ih']
+      omega
+
+/-- the content tokenizer decodes the `#XX` escapes back: EVERY name -/
+theorem readName_ok (n X : List Nat) (h : NameOk n) (hX : TermOk X) :
+    readName (escapeName n ++ X) = .tok (.name n) X := by
+  unfold readName
+  simp [scanName_esc n X hX, decodeName_esc n h.1, h.2]
 
 /-! ### operators -/
 
@@ -421,6 +517,7 @@ theorem nextTok_comment (t X : List Nat) (h : ∀ b ∈ t, b ≠ 10) :
 inductive NumRead (t : List Nat) : Token → Prop where
   | dec (h : IsDecTok t) : NumRead t (.number t)
   | int (i : Int) (h : IsIntTok t i) : NumRead t (.integer i)
+  | plain (h : IsPlainInt t) : NumRead t (tokOfPlain t)
 
 theorem nextTok_num (t X : List Nat) (tok : Token) (h : NumRead t tok) (hX : TermOk X) :
     nextTok false (t ++ X) = .tok tok X := by
@@ -443,6 +540,12 @@ theorem nextTok_num (t X : List Nat) (tok : Token) (h : NumRead t tok) (hX : Ter
     rcases hs with rfl | rfl
     · subst hbr; exact key b _ rfl (Or.inr hb)
     · exact key 45 _ rfl (Or.inl rfl)
+  | plain h =>
+    rw [← readNumber_plain t X h hX]
+    rcases h with ⟨hne, hd⟩ | ⟨d, rfl, _, _⟩
+    · obtain ⟨b, r, hbr, hb⟩ := digits_head t hd hne
+      exact key b r hbr (Or.inr hb)
+    · exact key 45 d rfl (Or.inl rfl)
   | int i h =>
     rw [← readNumber_int t X i h hX]
     rcases h with ⟨hne, hd, _, _⟩ | ⟨d, rfl, _, _, _, _⟩
@@ -582,8 +685,19 @@ theorem tokenize_render (ps : List Piece) (ts : List Token) (h : Reads ps ts) :
               | nil => exact absurd rfl hne
               | cons _ _ => simp [bytesOf]
             · simp [bytesOf]
+          | plain h =>
+            rcases h with ⟨hne, _⟩ | ⟨d, rfl, _, _⟩
+            · cases tk with
+              | nil => exact absurd rfl hne
+              | cons _ _ => simp [bytesOf]
+            · simp [bytesOf]
         refine hlen (render ps) (nextTok_num tk _ t hn hX) ?_ (by omega) ih
-        cases hn <;> simp
+        cases hn with
+        | dec _ => simp
+        | int _ _ => simp
+        | plain _ =>
+          unfold tokOfPlain
+          split <;> simp
       | name n hn =>
         have hX := render_TermOk ps (hterm rfl)
         refine hlen (render ps) ?_ (by simp) (by simp [bytesOf] at hf; omega) ih
